@@ -367,13 +367,13 @@ Definition sha384 (msg : bytes) : bytes :=
 (* every state word stored little-endian, all 5 / 8 words, no truncation.     *)
 (* ------------------------------------------------------------------------- *)
 
-Definition SHA1 : md_hash :=
+Definition H_SHA1 : md_hash :=
   MkMdHash 64 20 sha1_init sha1_compress sha1_pad sha1_digest_of_state ser_le32 le32s true.
-Definition SHA224 : md_hash :=
+Definition H_SHA224 : md_hash :=
   MkMdHash 64 28 sha224_init sha224_compress sha224_pad sha224_digest_of_state ser_le32 le32s true.
-Definition SHA256 : md_hash :=
+Definition H_SHA256 : md_hash :=
   MkMdHash 64 32 sha256_init sha256_compress sha256_pad sha256_digest_of_state ser_le32 le32s true.
-Definition SHA384 : md_hash :=
+Definition H_SHA384 : md_hash :=
   MkMdHash 128 48 sha384_init sha384_compress sha384_pad sha384_digest_of_state ser_le64 le64s true.
-Definition SHA512 : md_hash :=
+Definition H_SHA512 : md_hash :=
   MkMdHash 128 64 sha512_init sha512_compress sha512_pad sha512_digest_of_state ser_le64 le64s true.
